@@ -4,7 +4,7 @@ from spsdk.exceptions import SPSDKError, SPSDKValueError
 from spsdk.utils.misc import Endianness, BinaryPattern
 
 
-concrete_ok("spsdk.utils.misc:BinaryPattern", "spsdk.utils.misc:value_to_int")
+concrete_ok("spsdk.utils.misc:BinaryPattern")
 
 # ------------------------------------------------------------------------------------------------
 # alignment
@@ -48,7 +48,8 @@ def _(self: Obj(BinaryPattern, _pattern=OneOf("zeros", "ones", "inc")), size: Na
 
 
 @contract("spsdk.utils.misc:align_block")
-def _(data: Union[bytes, bytearray], alignment: int, padding: OneOf(None, 0, "zeros")) -> bytes:
+def _(data: Union[bytes, bytearray], alignment: int,
+      padding: Union[OneOf(None, 0, "zeros"), Obj(BinaryPattern, _pattern=Const("zeros"))]) -> bytes:
     # code rejects alignment < 0 itself and alignment == 0 through align(): the statement is "<= 0 is an error"
     raises(SPSDKError, alignment <= 0)
     ensures(len(result) >= len(data) and len(result) % alignment == 0 and len(result) - len(data) < alignment,
@@ -159,4 +160,66 @@ def _(value: Union[int, Bytes(hi=16), Bytes(hi=16, mutable=True)], default: Opti
 @contract("spsdk.utils.misc:value_to_bool")
 def _(value: Union[bool, int, None]) -> bool:
     returns(value is not None and value != 0)
+    pure()
+
+
+@contract("spsdk.utils.misc:value_to_bytes")
+def _(value: Union[bytes, bytearray, int], align_to_2n: bool, byte_cnt: Optional[Nat], endianness: Endianness) -> bytes:
+    let(req=byte_cnt is not None and byte_cnt != 0, isint=typed(value, int))
+    raises(SPSDKValueError, isint and value < 0, label="negative-rejected")
+    raises(SPSDKValueError, isint and value > 0 and req and (not align_to_2n or value < 65536) and value >= pow2(8 * byte_cnt),
+           label="does-not-fit")
+    raises(SPSDKValueError, isint and value >= 65536 and req and align_to_2n and value >= pow2(32 * (byte_cnt // 4)),
+           label="does-not-fit-after-align")
+    ensures(implies(not isint, result == value), label="bytes-identity")
+    ensures(implies(isint and req, len(result) == byte_cnt), label="requested-width")
+    ensures(implies(isint, len(result) >= 1 and value < pow2(8 * len(result))), label="fits")
+    ensures(implies(isint and not req and (not align_to_2n or value < 65536),
+                    len(result) == 1 or value >= pow2(8 * (len(result) - 1))), label="minimal-width")
+    ensures(implies(isint and not req and align_to_2n and value >= 65536,
+                    len(result) % 4 == 0 and value >= pow2(8 * (len(result) - 4))), label="documented-width-4n")
+    ensures(implies(isint and endianness == Endianness.LITTLE, forall(0, len(result), lambda j: result[j] == byte_at(value, j))),
+            label="little-endian-digits")
+    ensures(implies(isint and endianness == Endianness.BIG,
+                    forall(0, len(result), lambda j: result[j] == byte_at(value, len(result) - 1 - j))), label="big-endian-digits")
+    pure()
+    sample(byte_cnt=Optional[Range(0, 80)])
+
+
+# ------------------------------------------------------------------------------------------------
+# spsdk/sbfile/misc.py
+# ------------------------------------------------------------------------------------------------
+@contract("spsdk.sbfile.misc:SecBootBlckSize.is_aligned")
+def _(size: int) -> bool:
+    returns(size % 16 == 0)
+    pure()
+
+
+@contract("spsdk.sbfile.misc:SecBootBlckSize.align")
+def _(size: int) -> int:
+    raises(SPSDKError, size < 0)
+    ensures(result >= size and result % 16 == 0 and result - size < 16, label="smallest-multiple-of-16")
+    pure()
+
+
+@contract("spsdk.sbfile.misc:SecBootBlckSize.to_num_blocks")
+def _(size: int) -> int:
+    raises(SPSDKError, size % 16 != 0)
+    ensures(result * 16 == size, label="exact")
+    pure()
+
+
+@contract("spsdk.sbfile.misc:SecBootBlckSize.align_block_fill_zeros")
+def _(data: bytes) -> bytes:
+    ensures(len(result) >= len(data) and len(result) % 16 == 0 and len(result) - len(data) < 16, label="aligned-length")
+    ensures(result[: len(data)] == data, label="prefix-kept")
+    ensures(forall(len(data), len(result), lambda k: result[k] == 0), label="zero-padding")
+    pure()
+
+
+@contract("spsdk.sbfile.misc:BcdVersion3._check_number")
+def _(num: int) -> bool:
+    raises(SPSDKError, num < 0 or num > 0x9999 or num % 16 > 9 or (num // 16) % 16 > 9 or (num // 256) % 16 > 9
+           or (num // 4096) % 16 > 9, label="bcd-digits")
+    returns(True)
     pure()
